@@ -256,11 +256,13 @@ def run(ctx):
             mt = e.get("match", {})
             if mt.get("what") and what not in mt["what"]:
                 continue
-            if not (set(mt.get("constructs_any", [])) & constructs(p)):
+            if "constructs_any" in mt and not (set(mt["constructs_any"]) & constructs(p)):
                 continue
             if not classes <= set(mt.get("lazy_classes", [])):
                 continue
             if mt.get("only_missing", True) and any(f["extra"] for f in fl):
+                continue
+            if mt.get("missing_all_contain") and not all(mt["missing_all_contain"] in x for f in fl for x in f["missing"]):
                 continue
             return e
         return None
